@@ -90,6 +90,8 @@ structure Params where
   lagInclusive : Bool   -- an attempt is accepted when `end - beg <= lag` (true) or `<`
   lagInverted : Bool    -- (mutant) accepts when the comparison fails
   writeNext : Bool      -- `resync` writes slot `(version + 1) & 1` (true) or the current slot
+  gateAfterConv : Bool := true  -- the `timestamp > ts_now` test follows the conversion as a separate `if` (true); chained as
+                                -- `else if` behind the TSC branch it is never evaluated for TSC loggers (false)
 deriving DecidableEq, Repr
 
 def Params.code : Params :=
@@ -226,7 +228,7 @@ def pstep (p : Params) (sc : Int → Int) (s : Pipe) : POp → Pipe
     let ts := toU64 r.1
     let s1 := { s with clock := r.2.1 }
     match tsNow with
-    | some now => if now < ts then s1 else accept s1 ⟨id, th, tsc, ts⟩
+    | some now => if p.gateAfterConv ∧ now < ts then s1 else accept s1 ⟨id, th, tsc, ts⟩
     | none => accept s1 ⟨id, th, tsc, ts⟩
   | .idle rs => { s with clock := (resync p p.idleLag s.clock rs).1 }
   | .pop =>
